@@ -1,6 +1,99 @@
-/- C13 — model not written yet (stub so that the driver target exists). -/
-namespace Nitime.C13
+/-
+C13 — driver side of the `OneTime` machine (Model/OneTime.lean) run on the GENERATED class tables
+(Generated/Analyzers.lean) with a symbolic semantics: values are terms (strings) built from the
+uninterpreted `F`, `W`, `C`, so two reads agree in the model iff they agree for every `F`.
 
-def handle (_args : List String) : String := "bad-op"
+ops (first token `C13` already stripped):
+  names <Class>                      -> getters=a,b;slots=…;flags=…
+  hist <Class> <cfg> <history>       -> one record per read, `|`-separated:
+        <g>:f=<getters that ran>:w=<slots whose value changed>:c=<cached results rewritten>:i=<input rewritten 0/1>:s=<1 value equals that of a fresh object, 0 not, r recursion limit>
+  verdict <Class> <cfg>              -> ni=<0/1>   (noInterferenceB of the resolved table)
+`cfg` = ids of the flags that hold on the constructed object (`-` = none).
+-/
+import Nitime.Model.OneTime
+import Nitime.Model.Proto
+import Nitime.Generated.Analyzers
+
+namespace Nitime.C13
+open Nitime.OneTime Nitime.Proto
+
+def joinS (l : List String) : String := ",".intercalate l
+
+def showOpt : Option String → String
+  | none => "None"
+  | some s => s
+
+/-- symbolic semantics: every uninterpreted function builds a term -/
+def symSem : Sem String String :=
+  { F := fun g dvs pvs x => s!"F{g}({joinS dvs}|{joinS (pvs.map showOpt)}|{showOpt x})"
+    W := fun g p dvs pvs x => s!"W{g}_{p}({joinS dvs}|{joinS (pvs.map showOpt)}|{showOpt x})"
+    C := fun g k v => s!"C{g}_{k}({v})"
+    CI := fun g x => s!"CI{g}({x})"
+    D := fun p x => s!"D{p}({x})" }
+
+def findSpec? (cls : String) : Option AnalyzerSpec :=
+  Generated.allSpecs.find? (·.cls == cls)
+
+/-- constructor parameters: a slot is missing / None exactly when its `none:<slot>` flag holds -/
+def initParams (sp : AnalyzerSpec) (cfg : List Nat) : Nat → Option String := fun p =>
+  match sp.slotNames[p]? with
+  | none => some s!"p{p}"
+  | some nm =>
+    match sp.flag? ("none:" ++ nm) with
+    | some f => if cfg.contains f then none else some s!"p{p}"
+    | none => some s!"p{p}"
+
+def fresh (sp : AnalyzerSpec) (cfg : List Nat) (x : String) : St String String :=
+  construct symSem sp.initDerived (initParams sp cfg) x
+
+structure StepObs where
+  g : Nat
+  fired : List Nat
+  pw : List Nat
+  cl : List Nat
+  inp : Bool
+  same : String
+
+def observe (sp : AnalyzerSpec) (spec : Spec) (s0 : St String String) (g : Nat)
+    (s : St String String) : St String String × StepObs :=
+  let (s', r) := read spec symSem g s
+  let ng := sp.getters.length
+  let fired := (List.range ng).filter fun k => s'.count k > s.count k
+  let pw := (List.range sp.slotNames.length).filter fun p => s'.params p != s.params p
+  let cl := (List.range ng).filter fun k => (s.cache k).isSome && s'.cache k != s.cache k
+  let same := match r with
+    | none => "r"
+    | some v => if (read spec symSem g s0).2 == some v then "1" else "0"
+  (s', { g := g, fired := fired, pw := pw, cl := cl, inp := s'.input != s.input, same := same })
+
+def StepObs.show (o : StepObs) : String :=
+  s!"{o.g}:f={showNatList o.fired}:w={showNatList o.pw}:c={showNatList o.cl}:i={if o.inp then 1 else 0}:s={o.same}"
+
+def runObs (sp : AnalyzerSpec) (spec : Spec) (s0 : St String String) :
+    List Nat → St String String → List StepObs → St String String × List StepObs
+  | [], s, acc => (s, acc.reverse)
+  | g :: h, s, acc => let (s', o) := observe sp spec s0 g s; runObs sp spec s0 h s' (o :: acc)
+
+def hist (sp : AnalyzerSpec) (cfg h : List Nat) : String :=
+  let spec := sp.resolve cfg
+  let s0 := fresh sp cfg "x"
+  let (_, obs) := runObs sp spec s0 h s0 []
+  if obs.isEmpty then "-" else "|".intercalate (obs.map StepObs.show)
+
+def handle (args : List String) : String :=
+  match args with
+  | ["names", cls] => match findSpec? cls with
+    | some sp => s!"getters={joinS sp.getterNames};slots={joinS sp.slotNames};flags={joinS sp.flagNames}"
+    | none => "unknown-class"
+  | ["hist", cls, cfg, h] => match findSpec? cls, parseNatList? cfg, parseNatList? h with
+    | some sp, some cfg, some h => hist sp cfg h
+    | none, _, _ => "unknown-class"
+    | _, _, _ => "bad-op"
+  | ["verdict", cls, cfg] => match findSpec? cls, parseNatList? cfg with
+    | some sp, some cfg =>
+      s!"ni={if noInterferenceB (sp.resolve cfg) (sp.present cfg) then 1 else 0}"
+    | none, _ => "unknown-class"
+    | _, _ => "bad-op"
+  | _ => "bad-op"
 
 end Nitime.C13
